@@ -784,3 +784,131 @@ def run(facts, rep, parts=('R1', 'R4', 'R6')):
     if 'R6' in parts:
         check_deloop(facts, rep)
         check_based_predicate(facts, rep)
+
+
+# ------------------------------------------------------------------ R11: neutral-element shortcuts of vertical composition
+
+def check_stack_shortcuts(facts, rep):
+    """R11 (C02 / C01 / C05): Cob::stack(self, other) may skip the composition only when the operand it drops is a neutral
+    element. Every return path of stack that does not reach the component-wise composition is read as a guarded shortcut
+    "keep self" / "self := other"; its guard - whatever predicates of Cob it calls - is *folded over a finite model of
+    cobordisms*: lists of at most two connected components, each with 0..2 boundary pieces at either end, the two ends
+    equal or not, genus 0 / 1, no dot / one dot. In that model a cobordism is an identity exactly when every component is
+    a cylinder over one piece (|src| = |tgt| = 1, src = tgt, genus 0, no dots); the empty cobordism is the identity of the
+    empty tangle. A guard that lets through a model cobordism which is not an identity (e.g. "src == tgt, genus 0, no dots",
+    which the connected tube {a, b} -> {a, b} satisfies) drops a factor of the differential."""
+    import re
+    from symex import SymEx, show, strip
+    from dtree import DTree, Stuck
+    ST = 'yui_kh::kh::internal::v2::cob::Cob::stack'
+    b = facts.bodies.get(ST)
+    if b is None:
+        rep.indet('E9.R11: Cob::stack not found')
+        return
+    rep.saw(b)
+
+    def dk(t):
+        return re.sub(r'#(?:i\d+:)?\d+\.\d+', '', show(t, -1000))
+    shortcuts = []
+    full = 0
+    for p in SymEx(b, havoc_loops=True, max_paths=5000).run():
+        if p.end != 'return':
+            continue
+        names = [e.name.split('::')[-1] for e in p.calls()]
+        if 'stack_comps' in names or 'take_stackable_comps' in names or 'normalize' in names:
+            full += 1
+            continue
+        writes = [(dk(('mref', e.lv)) if False else e.lv, dk(e.term)) for e in p.events if e.kind == 'write']
+        whole = [w for w in writes if w[0] == (('ptr', ('arg', 1)), ())]
+        if whole and whole[-1][1] == 'arg2':
+            effect = 'self := other'
+        elif not writes:
+            effect = 'keep self'
+        else:
+            rep.indet('E9.R11: a shortcut of Cob::stack writes %s' % [w[1][:60] for w in writes][:2])
+            return
+        conds = [(e.term, e.value) for e in p.branches() if not (e.name or '').startswith('assert:')]
+        shortcuts.append((effect, conds))
+    if not full:
+        rep.indet('E9.R11: no composing path found in Cob::stack')
+        return
+    # the model
+    def tng(ids):
+        return {'comps': tuple(ids)}
+    comps = []
+    for ns in range(3):
+        for nt in range(3):
+            for same in ((True, False) if ns == nt and ns > 0 else (False,)):
+                for g in (0, 1):
+                    for dots in ((0, 0), (1, 0)):
+                        src = tng(range(ns))
+                        tgt = tng(range(ns)) if same else tng(range(10, 10 + nt))
+                        comps.append({'src': src, 'tgt': tgt, 'genus': g, 'dots': dots})
+
+    def is_cyl(c):
+        return len(c['src']['comps']) == 1 and c['src'] == c['tgt'] and c['genus'] == 0 and c['dots'] == (0, 0)
+    tube = next(c for c in comps if len(c['src']['comps']) == 2 and c['src'] == c['tgt'] and c['genus'] == 0 and c['dots'] == (0, 0))
+    cyl = next(c for c in comps if is_cyl(c))
+    cobs = [()] + [(c,) for c in comps] + [(cyl, c) for c in comps] + [(tube, cyl)]
+    dt = DTree(facts)
+
+    def atom(t, ev):
+        if t[0] == 'call':
+            nm = t[1].split('::')[-1]
+            a = t[2]
+            if nm in ('iter', 'deref', 'as_slice', 'into_iter', 'as_ref', 'borrow') and len(a) == 1:
+                return (ev(a[0]),)
+            if nm == 'is_empty' and len(a) == 1 and t[1] not in facts.bodies:
+                v = ev(a[0])
+                if isinstance(v, tuple):
+                    return (int(len(v) == 0),)
+            if nm == 'len' and len(a) == 1 and t[1] not in facts.bodies:
+                v = ev(a[0])
+                if isinstance(v, tuple):
+                    return (len(v),)
+            if nm in ('all', 'any') and len(a) == 2:
+                items = ev(a[0])
+                clo = strip(a[1])
+                if isinstance(items, tuple) and clo[0] == 'closure' and clo[1] in facts.bodies:
+                    res = [bool(dt.decide(clo[1], {1: clo, 2: it}, atom)[0]) for it in items]
+                    return (int(all(res) if nm == 'all' else any(res)),)
+            if nm == 'is_stackable':
+                return (1,)
+        return None
+
+    def holds(conds, A, B):
+        for term, value in conds:
+            v = dt.ev(term, {1: {'comps': A}, 2: {'comps': B}}, atom)
+            v = int(bool(v)) if isinstance(v, bool) else v
+            if value == 'else':
+                if v == 0:
+                    return False
+            elif v != value:
+                return False
+        return True
+    bad = []
+    n = 0
+    try:
+        for effect, conds in shortcuts:
+            mentions_self = any('arg1' in dk(t) for t, _ in conds)
+            for X in cobs:
+                # the dropped operand is X; the other operand is left arbitrary (empty here: guards test one operand each)
+                for A, B in (((X, ()) if effect == 'self := other' else ((), X)), ((X, (cyl,)) if effect == 'self := other' else ((cyl,), X))):
+                    n += 1
+                    if holds(conds, A, B):
+                        dropped = A if effect == 'self := other' else B
+                        if not all(is_cyl(c) for c in dropped):
+                            c = next(c for c in dropped if not is_cyl(c))
+                            bad.append('%s is taken when the dropped operand has a component with |src| = %d, |tgt| = %d, src %s tgt, genus %d, dots %s' %
+                                       (effect, len(c['src']['comps']), len(c['tgt']['comps']), '=' if c['src'] == c['tgt'] else '!=', c['genus'], c['dots']))
+    except (Stuck, KeyError, TypeError, IndexError) as e:
+        rep.indet('E9.R11: guard of a Cob::stack shortcut outside the recognised fragment: %s' % str(e)[:160])
+        return
+    inst = 'Cob::stack|a shortcut drops an operand only if it is an identity cobordism'
+    if bad:
+        rep.violation('E9.R11-neutral-shortcuts', inst,
+                      'Cob::stack: %s - such a component is not an identity (a connected surface over two boundary pieces is a tube, not two cylinders), so a factor of a composed differential is silently dropped' % sorted(set(bad))[0],
+                      where=b.where())
+    else:
+        rep.ok('E9.R11-neutral-shortcuts', inst, '%d shortcut path(s), %d model points folded' % (len(shortcuts), n))
+    rep.floor('E9.R11 shortcut paths of Cob::stack', len(shortcuts), 2)
